@@ -305,6 +305,24 @@ def handle (memo : Memo) (line : String) : Memo × String :=
           | _ => (memo, "X bad-args")
         | _ => (memo, "X bad-args")
       | _ => (memo, "X bad-args")
+    | "vclass" =>
+      -- per-entry class of every entry of an envelope's signature map, in map order (Model/Auth.lean: entryClass)
+      match parseVal args with
+      | some (.j (.obj top), r1) => match parseVal r1 with
+        | some (.j (.arr ks), r2) => match parseVal r2 with
+          | some (g, []) =>
+            match dictGet (ps! "signed") top, dictGet (ps! "signatures") top with
+            | some signed, some (.obj entries) =>
+              let gpg := gpgOf g
+              let memo' := warm memo (.obj top) gpg
+              let C := memoCrypto memo'
+              let data := ser signed
+              (memo', "C " ++ String.intercalate "," (entries.map fun (k, sg) => (entryClass C gpg (ks.map strOf) data k sg).name))
+            | _, _ => (memo, "C -")
+          | _ => (memo, "X bad-args")
+        | _ => (memo, "C -")
+      | some _ => (memo, "C -")
+      | none => (memo, "X bad-args")
     | "vdeleg" =>
       match parseVal args with
       | some (n, r1) => match parseVal r1 with
